@@ -15,7 +15,7 @@ from ..index import dotted, walk_no_nested, norm_text, AnalysisError
 from ..cfg import describe_path
 from .. import util as U
 from .. import flow as F
-from ..dtable import Interp, fmt_val, txt, _Need
+from ..dtable import Interp, fmt_val, txt, _Need, same_bool
 
 ROB = 'wpull.protocol.http.robots'
 POOL = 'wpull.robotstxt'
@@ -1512,6 +1512,23 @@ def _d5(ctx):
         ck.bad('C20-D5b', sc.qual, 'if %s.get(%r): <remove the linked contexts>' % (M, fk),
                'under the no-follow flag no bulk removal (difference_update, -=, filtered rebuild) of the linked contexts was found', sc.loc(ifs[0]))
 
+    # ---- (c') the option itself: the only place that turns args.robots off after parsing does so exactly when the crawl is not
+    #      recursive (Wget: robots apply to recursive retrieval); the depth limit has nothing to do with it
+    pp = repo.func('wpull.application.options:AppArgumentParser._post_parse_args')
+    offs = [st for st in walk_no_nested(pp.node) if isinstance(st, ast.Assign) and any(norm_text(t) == 'args.robots' for t in st.targets)]
+    ppm = U.parents(pp.node)
+    for st in offs:
+        g = ppm.get(id(st))
+        okg = isinstance(g, ast.If) and st in g.body and same_bool(g.test, 'not args.recursive') \
+            and isinstance(st.value, ast.Constant) and st.value.value is False
+        ck.expect(okg, 'C20-D5c', pp.qual, 'args.robots = False only under `not args.recursive`',
+                  'robots handling is switched off under `%s`: a recursive crawl (with unlimited depth, say) then runs without robots.txt '
+                  'and without the nofollow check' % (norm_text(g.test) if isinstance(g, ast.If) else 'no condition'), pp.loc(st))
+    for f_ in repo.funcs.values():
+        if f_.module.name.startswith('wpull.application') and f_ is not pp:
+            for st in walk_no_nested(f_.node):
+                if isinstance(st, ast.Assign) and any(isinstance(t, ast.Attribute) and t.attr == 'robots' and 'args' in norm_text(t.value) for t in st.targets):
+                    ck.bad('C20-D5c', f_.qual, norm_text(st)[:80], 'the robots option is rewritten outside the argument parser', f_.loc(st))
     # ---- (c) wiring
     fmap = res.factory_map()
     bd = repo.func(DL + ':ParserSetupTask._build_document_scrapers')
